@@ -11,7 +11,11 @@
 (* Event record: [type, sender, skey, membership, plu, jr, prev, auth,     *)
 (*                depth, ts, idr, sha, rejected, addl, pud]                *)
 (*   type in {"create","member","pl","jr","topic"}; skey = target user of  *)
-(*   a member event, "" otherwise; plu = the users map and pud = the       *)
+(*   a member event; "" otherwise, or "x" (a non-empty state key that is   *)
+(*   no user ID) on a pl / jr event: such an event has the TYPE of a       *)
+(*   control event but is an ordinary entry of the state map under its own *)
+(*   key - the room's power levels / join rules are the events with the    *)
+(*   empty state key only; the auth rules judge it by its type; plu = the users map and pud = the       *)
 (*   users_default of a power-levels content (Absent = key not present;    *)
 (*   the other thresholds keep their defaults in room models);             *)
 (*   prev / auth = sets of ids; ts = timestamp rank; idr = rank of the     *)
@@ -59,8 +63,10 @@ ConflictedSubgraph(E, C) ==
 (***************************************************************************)
 (* Power events (R8) and the rest                                          *)
 (***************************************************************************)
+\* (the power levels / join rules of the room: the empty state key; a pl / jr event under another key cannot take
+\* anybody's ability away and is ordered with the rest)
 IsControl(E, e) ==
-    \/ E[e].type \in {"pl", "jr"}
+    \/ KeyOf(E, e) \in {<<"pl", "">>, <<"jr", "">>}
     \/ E[e].type = "member" /\ E[e].skey # E[e].sender /\ E[e].membership \in {"leave", "ban"}
 
 \* R8: a power event pulls in, recursively, those of its auth events that are in the conflicted set
@@ -83,7 +89,7 @@ CreatorsOf(E) == {E[CreateId(E)].sender} \cup E[CreateId(E)].addl   \* create se
 \* effective level that content gives the sender: the `users` entry, or users_default for a sender it does not list
 SenderPower(E, v, e) ==
     IF PrivilegedCreators(v) /\ E[e].sender \in CreatorsOf(E) THEN Inf
-    ELSE LET pls == {a \in E[e].auth : E[a].type = "pl"} IN
+    ELSE LET pls == {a \in E[e].auth : KeyOf(E, a) = <<"pl", "">>} IN
          IF pls = {} THEN R0
          ELSE LET c == PLCOf(E, CHOOSE a \in pls : TRUE) IN Eff(c.users[E[e].sender], Thr(c, "users_default"))
 
@@ -128,13 +134,16 @@ StOf(E, S) ==
         mem |-> [u \in Users |-> IF memOf(u) = {} THEN "absent" ELSE E[CHOOSE m \in memOf(u) : TRUE].membership],
         tpi |-> "absent", tpisender |-> "creator", mixedrooms |-> FALSE]
 
+\* Auth.tla's state-key vocabulary: the rules only ask whether there is a state key and whether it names a user
+SKeyOf(r) == IF r.skey = "" THEN "empty" ELSE "other"
+
 EvOf(E, e) ==
     LET r == E[e] IN
     CASE r.type = "create" -> [BaseEv EXCEPT !.type = "create", !.sender = r.sender, !.skey = "empty"]
       [] r.type = "member" -> [MemberEv(r.sender, r.skey, r.membership)
                                  EXCEPT !.prev = IF r.prev = {CreateId(E)} THEN "create_only" ELSE "other"]
-      [] r.type = "pl" -> [BaseEv EXCEPT !.type = "pl", !.sender = r.sender, !.skey = "empty", !.newpl = PLCOf(E, e)]
-      [] r.type = "jr" -> [BaseEv EXCEPT !.type = "jr", !.sender = r.sender, !.skey = "empty"]
+      [] r.type = "pl" -> [BaseEv EXCEPT !.type = "pl", !.sender = r.sender, !.skey = SKeyOf(r), !.newpl = PLCOf(E, e)]
+      [] r.type = "jr" -> [BaseEv EXCEPT !.type = "jr", !.sender = r.sender, !.skey = SKeyOf(r)]
       [] OTHER -> [BaseEv EXCEPT !.type = "topic", !.sender = r.sender, !.skey = "empty"]
 
 NeededKeys(E, e) ==
@@ -161,7 +170,7 @@ IterAuth(E, v, seq, i, P) ==
 (***************************************************************************)
 (* Power-level mainline (R3, R4) and mainline ordering                     *)
 (***************************************************************************)
-PLAuthOf(E, e) == {a \in E[e].auth : E[a].type = "pl"}
+PLAuthOf(E, e) == {a \in E[e].auth : KeyOf(E, a) = <<"pl", "">>}
 
 RECURSIVE MainlineFrom(_, _)
 MainlineFrom(E, p) ==      \* oldest first
@@ -239,9 +248,11 @@ V1ResolveNormalBlock(E, v, A, X) ==
 ResultV1(E, v, Sets) ==
     LET U == UnconflictedV1(E, Sets)
         C == AllIds(Sets) \ U
-        isAuthType(e) == E[e].type \in {"create", "pl", "jr", "member"}
+        \* the events the auth rules read: members, and the create / power-levels / join-rules events of the room
+        \* (empty state key); an event of one of these types under another key is resolved with the other events
+        isAuthType(e) == E[e].type = "member" \/ KeyOf(E, e) \in {<<"create", "">>, <<"pl", "">>, <<"jr", "">>}
         A0 == {e \in U : isAuthType(e)}                         \* one auth event per state key
-        keysOf(t) == {KeyOf(E, e) : e \in {c \in C : E[c].type = t}}
+        keysOf(t) == {KeyOf(E, e) : e \in {c \in C : E[c].type = t /\ isAuthType(c)}}
         stage(A, t) == A \cup {V1ResolveAuthBlock(E, v, A, ForKey(E, C, k)) : k \in keysOf(t)}
         A1 == stage(A0, "create")
         A2 == stage(A1, "pl")
